@@ -427,17 +427,15 @@ def reluCond (quantizer : PyVal) (qn : String) : Bool :=
   | .dict qd => truthy ((dget qd qn).getD .none)
   | _ => true
 
-/-- "Remove relu specific configurations" (utils.py:939-948), dispatching on the CURRENT
-    value of `layer["class_name"]` -/
-def reluDelete (l : PyVal) : R PyVal := do
-  let cls2 ← sub l "class_name"
-  match cls2 with
-  | .str "LeakyReLU" => delCfg l "alpha"
-  | .str "relu" => do
+/-- "Remove relu specific configurations" (utils.py:940-949), dispatching on the ORIGINAL class
+    name `orig_class_name` remembered before the rename (fix 01d6934) -/
+def reluDelete (cn : String) (l : PyVal) : R PyVal :=
+  if cn = "LeakyReLU" then delCfg l "alpha"
+  else if cn = "relu" then do
     let l ← delCfg l "max_value"
     let l ← delCfg l "alpha"
     delCfg l "threshold"
-  | _ => do
+  else do
     let l ← delCfg l "max_value"
     let l ← delCfg l "negative_slope"
     delCfg l "threshold"
@@ -448,10 +446,11 @@ def reluPick (quantizer : PyVal) (qn : String) : R PyVal :=
   | .dict qd => sub (.dict qd) qn
   | _ => pure quantizer
 
-/-- lines 934-955: the class name is overwritten BEFORE the keys are deleted -/
-def reluApply (F : Flags) (quantizer : PyVal) (qn : String) (l : PyVal) : R PyVal := do
+/-- lines 934-956: `orig_class_name = layer["class_name"]`, rename, delete the keys of the
+    original class -/
+def reluApply (F : Flags) (quantizer : PyVal) (qn : String) (cn : String) (l : PyVal) : R PyVal := do
   let l ← setCls l "QActivation"
-  let l ← reluDelete l
+  let l ← reluDelete cn l
   let quantizer ← reluPick quantizer qn
   if truthy quantizer then setCfg l "activation" quantizer else quantActIn l F.actBits
 
@@ -459,8 +458,8 @@ def reluApply (F : Flags) (quantizer : PyVal) (qn : String) (l : PyVal) : R PyVa
 def reluQName (pos : Bool) : String := if pos then "leakyrelu" else "relu"
 
 /-- lines 931-955 -/
-def reluFinish (F : Flags) (quantizer : PyVal) (qn : String) (l : PyVal) : BranchRes :=
-  if reluCond quantizer qn then do pure (← reluApply F quantizer qn l, some qn, true)
+def reluFinish (F : Flags) (quantizer : PyVal) (qn : String) (cn : String) (l : PyVal) : BranchRes :=
+  if reluCond quantizer qn then do pure (← reluApply F quantizer qn cn l, some qn, true)
   else pure (l, some qn, true)
 
 /-- ReLU / relu / LeakyReLU (utils.py:905-955), as written -/
@@ -472,7 +471,7 @@ def reluBranch (F : Flags) (look : Look) (cn : String) (l : PyVal) (st : Option 
     let cfg ← sub l "config"
     let negSlope ← reluSlope cn cfg
     let pos ← gtZero negSlope
-    reluFinish F quantizer (reluQName pos) l
+    reluFinish F quantizer (reluQName pos) cn l
 
 /-- lines 967-985 -/
 def bnApply (look : Look) (l : PyVal) : R PyVal := do
